@@ -19,7 +19,7 @@ var lgOracle = "c08"
 
 type lgScript struct {
 	Opts   pkglint.VerifLoggerOpts
-	Lines  []pkglint.VerifLine
+	Lines  []pkglint.VerifLogLine
 	Events []pkglint.VerifEvent
 }
 
@@ -51,7 +51,7 @@ func lgGenScript(rng *Rng) lgScript {
 	}
 	nl := 1 + rng.Intn(4)
 	for i := 0; i < nl; i++ {
-		l := pkglint.VerifLine{File: Pick(rng, lgFiles)}
+		l := pkglint.VerifLogLine{File: Pick(rng, lgFiles)}
 		switch {
 		case rng.Chance(8):
 			l.Lineno = 0
@@ -430,7 +430,7 @@ func lgDecodeScript(v any) (s lgScript, ok bool) {
 		lm, _ := x.(map[string]any)
 		f, _ := lm["file"].(string)
 		n, _ := lm["lineno"].(float64)
-		s.Lines = append(s.Lines, pkglint.VerifLine{File: unhx(f), Lineno: int(n), Raws: lgUnhexList(lm["raws"])})
+		s.Lines = append(s.Lines, pkglint.VerifLogLine{File: unhx(f), Lineno: int(n), Raws: lgUnhexList(lm["raws"])})
 	}
 	evs, _ := m["events"].([]any)
 	for _, x := range evs {
